@@ -217,7 +217,8 @@ def run_check(prop, tier, seed, n_workers=None):
   if not harness and budget.get('det', 4):
     ok_idx = [i for i, r in enumerate(reps) if r and r.get('ok')][:budget.get('det', 4)]
     djobs = [jobs[i] for i in ok_idx]
-    dreps = pool.run_jobs(djobs, n_workers=2, timeout=timeout, hashseed='4711')
+    dreps = pool.run_jobs(djobs, n_workers=2, timeout=timeout,
+                          hashseed=getattr(mod, 'DET_HASHSEED', '4711'))
     for i, r in zip(ok_idx, dreps):
       if not (r and r.get('ok')) or \
           r['result']['digest'] != reps[i]['result']['digest']:
